@@ -171,6 +171,33 @@ class LockProxy:
         return self.real.locked()
 
 
+def is_exclusive(lock):
+    """does this lock object actually exclude a second holder?  (held here, a non-blocking acquire from another thread must fail);
+    a lock that lets everybody in (e.g. xarray's DummyLock) gives no ordering constraint in the encoding"""
+    out = []
+
+    def probe():
+        try:
+            r = lock.acquire(False)
+        except TypeError:
+            r = lock.acquire()
+        out.append(r)
+        if r is not False:
+            try:
+                lock.release()
+            except Exception:  # noqa: BLE001
+                pass
+
+    lock.acquire()
+    try:
+        t = threading.Thread(target=probe, daemon=True)
+        t.start()
+        t.join(timeout=5)
+    finally:
+        lock.release()
+    return out == [False] or not out  # not out: the probe blocked (a lock without non-blocking mode): exclusive
+
+
 def instrument_lock(variable):
     """replace the lock held by the backend wrapper of an xarray variable by a LockProxy around it"""
     obj = variable._data
@@ -226,9 +253,11 @@ def build_image(fs, url, n=4, pixels=3, H=12, seed=1, rpc=2, array_cls=None):
 def to_xr(arr):
     """the real conversion (creates the lock the way the real code does)"""
     from ceos_alos2 import xarray as X
-    from ceos_alos2.hierarchy import Variable
+    from ceos_alos2.hierarchy import Group, Variable
 
-    return X.to_variable(Variable(["rows", "columns"], arr, {}))
+    # through the conversion of a whole group with the default chunks=None, as open_alos2 does for every image group
+    ds = X.to_dataset(Group("/imagery/X", None, {"data": Variable(["rows", "columns"], arr, {})}, {}))
+    return ds.variables["data"]
 
 
 SCENARIOS = {
@@ -282,7 +311,8 @@ def setup(names_needed, shared=False):
             while not isinstance(getattr(obj, "lock", None), LockProxy):
                 obj = obj.array
             inner = getattr(obj.lock.real, "lock", obj.lock.real)
-            _CURRENT["locknames"].setdefault(id(inner), f"lock:{nm}")  # the same name in every setup of this scenario
+            # the same name in every setup of this scenario; an object that does not exclude is named so that the encoding ignores it
+            _CURRENT["locknames"].setdefault(id(inner), (f"lock:{nm}" if is_exclusive(obj.lock.real) else f"nolock:{nm}#{len(_CURRENT['locknames'])}"))
     return fs, variables, datas
 
 
@@ -339,6 +369,8 @@ def encode(programs):
     for i, p in enumerate(programs):
         open_ = {}
         for k, ev in enumerate(p):
+            if ev[0] in ("acquire", "release") and str(ev[1]).startswith("nolock:"):
+                continue  # an object with the lock interface that does not exclude anybody
             if ev[0] == "acquire":
                 open_[ev[1]] = k
             elif ev[0] == "release" and ev[1] in open_:
@@ -347,6 +379,8 @@ def encode(programs):
     for i, p in enumerate(programs):
         held = {}
         for k, ev in enumerate(p):
+            if str(ev[1]).startswith("nolock:"):
+                continue
             if ev[0] == "acquire":
                 held[ev[1]] = k
             elif ev[0] == "release":
